@@ -65,7 +65,9 @@ void harness(void)
 	if (d != 1) return;
 	V_CHECK("split: first message = bytes decoded before the cut + reference continuation", dec.data.msg == (ssize_t) (in_p + (size_t) ref1) && dec.curr == in_p + 1 + used1);
 	V_CHECK("split: first message bytes", IMP(in_k < (size_t) ref1, store[dec.data.pos + in_p + in_k] == ref1_out[in_k]) && IMP(in_p > 0, store[dec.data.pos] == 0x41));
-	/* optionally the reader polls once more before any further byte has arrived (input ends exactly behind the frame) */
+#ifdef IDLE_POLL
+	/* optionally the reader polls once more before any further byte has arrived (input ends exactly behind the frame);
+	 * only in the small units: with it the larger thorough units exhaust 10 GB in the SAT back end (measured) */
 	{
 		IN(int, in_idle);
 		if (in_idle) {
@@ -76,6 +78,7 @@ void harness(void)
 			if (di != 0) return;
 		}
 	}
+#endif
 	/* second frame on the same state */
 	d = DEC_FN(&dec, &src, 1);
 	if (d == MPT_ERROR(MissingBuffer)) return;
